@@ -114,6 +114,49 @@ def _inplace_offenders(fd):
     return out
 
 
+def _stored_alias_offenders(fd):
+    """`x = C[k]` (or `x = C.attr`) followed by `x += ...`: with numpy arrays the augmented assignment updates the object that is still stored in C.  That is visible to the
+    caller -- and makes array calls differ from scalar calls -- exactly when C outlives the function: C is a parameter, is returned, or is put into something that is."""
+    params = {a.arg for a in fd.args.args + fd.args.kwonlyargs} - {'self', 'cls'}
+    nodes = []
+    for st in fd.body: nodes.extend(ast.walk(st))
+    # names that escape: parameters, names occurring in return values, names stored into an escaping container
+    escaping = set(params)
+    for n in nodes:
+        if isinstance(n, ast.Return) and n.value is not None:
+            escaping |= {x.id for x in ast.walk(n.value) if isinstance(x, ast.Name)}
+    for _ in range(4):
+        grew = False
+        for n in nodes:
+            if isinstance(n, ast.Assign):
+                for t in n.targets:
+                    if isinstance(t, (ast.Subscript, ast.Attribute)) and isinstance(t.value, ast.Name) and t.value.id in escaping:
+                        for x in ast.walk(n.value):
+                            if isinstance(x, ast.Name) and x.id not in escaping:
+                                escaping.add(x.id); grew = True
+            if isinstance(n, ast.Call) and isinstance(n.func, ast.Attribute) and n.func.attr in ('append', 'extend', 'update', 'setdefault', 'insert') and isinstance(n.func.value, ast.Name) \
+                    and n.func.value.id in escaping:
+                for a_ in n.args:
+                    for x in ast.walk(a_):
+                        if isinstance(x, ast.Name) and x.id not in escaping:
+                            escaping.add(x.id); grew = True
+        if not grew: break
+    # aliases of stored objects
+    src = {}
+    for n in nodes:
+        if isinstance(n, ast.Assign) and len(n.targets) == 1 and isinstance(n.targets[0], ast.Name):
+            v = n.value
+            if isinstance(v, (ast.Subscript, ast.Attribute)) and isinstance(v.value, ast.Name):
+                src.setdefault(n.targets[0].id, []).append((v.value.id, ast.unparse(v)[:50], n.lineno))
+    out = []
+    for n in nodes:
+        if isinstance(n, ast.AugAssign) and isinstance(n.target, ast.Name) and n.target.id in src:
+            for cont, txt, ln in src[n.target.id]:
+                if cont in escaping and ln < n.lineno:
+                    out.append((n.lineno, f'{ast.unparse(n)[:50]}` after `{n.target.id} = {txt}', cont))
+    return out
+
+
 def _only_fresh_actuals(mod, funcs, helper, pname, depth=0):
     """True iff `helper` is private to its module (leading underscore, not exported), is called somewhere in it, and at every call site the argument bound to `pname` is a name
     the caller bound to a fresh object (a literal, a constructor / numpy creation call), not one of the caller's own parameters or an alias of one (checked transitively)."""
@@ -164,6 +207,8 @@ def inplace_lint(chk, repo, rule, paths, floor_funcs=1):
         for fd in funcs:
             if isinstance(fd, ast.FunctionDef):
                 nfunc += 1
+                for ln, txt, cont in _stored_alias_offenders(fd):
+                    offenders.append(f'{fd.name} line {ln}: `{txt}` updates in place an object that is still stored in `{cont}`, which outlives the function: with array values the stored entry changes too')
                 for ln, txt, name in _inplace_offenders(fd):
                     if _only_fresh_actuals(mod, funcs, fd, name):
                         continue      # a private helper filling a container every caller creates itself: nobody's argument is modified
